@@ -1,10 +1,10 @@
 CONSTANTS
-  W = 2
+  W = 3
   H = 2
   Traps = {}
   Complement <- StdComplement
-  Roots <- Roots22
-  MaxTurns = 9
+  Roots <- Roots32
+  MaxTurns = 8
   StopAtResult = FALSE
 SPECIFICATION Spec
 CONSTRAINT TurnBound
